@@ -222,6 +222,7 @@ int __wrap_kill(pid_t pid, int sig)
 }
 int __wrap_execvp(const char *file, char *const argv[])
 {
+	verif_shell(argv[0] && argv[1] && argv[2] ? argv[2] : "");
 	_exit(127);
 }
 
@@ -430,6 +431,7 @@ int main(int argc, char *argv[])
 	snprintf(dir, sizeof(dir), "%s.d-XXXXXX", argv[0]);
 	if (!mkdtemp(dir) || chdir(dir))
 		return 2;
+	verif_shell_init();
 	dumpf = stdout;
 	while (fgets(line, sizeof(line), stdin)) {
 		pid_t pid;
